@@ -1,6 +1,6 @@
 (* C14 -- pinned property theorems (nothing else lives here) *)
 From Coq Require Import ZArith NArith List Bool Sorting Permutation.
-From V Require Import Base.Term C13.Model C13.Proofs C14.Model C14.Proofs.
+From V Require Import Base.Term C13.Model C13.Proofs C14.Model C14.Proofs C14.Avl C14.AvlProofs.
 Import ListNotations.
 
 (* ---- generic: any comparison that is a total preorder (antisymmetric in the CompOpp sense, <= transitive) ---- *)
@@ -152,6 +152,94 @@ Theorem assoc_history_sorted : forall init ops,
 Proof. intros init ops. apply run_ops_sorted. apply amap_of_pairs_sorted. Qed.
 Print Assumptions assoc_history_sorted.
 
+(* ---- library(assoc): the mirror of assoc.pl (C14.Avl: AVL trees t / t(K,V,Balance,L,R), clause by clause) ----
+   generic in any comparison that is a total preorder; None = the Prolog predicate fails *)
+
+(* what the invariant says: in-order keys strictly ascending; every stored balance symbol is the sign of
+   height(R) - height(L) and the two heights differ by at most one *)
+Theorem avl_invariant_meaning : forall (K V : Type) (cmp : K -> K -> comparison) (t : tree K V) (k : K) (v : V) b (l r : tree K V),
+  (avl_inv cmp t <-> StronglySorted (fun p q => cmp (fst p) (fst q) = Lt) (to_list t) /\ balanced t) /\
+  (balanced (T k v b l r) <->
+   balanced l /\ balanced r /\
+   match b with BL => height l = S (height r) | BE => height l = height r | BR => height r = S (height l) end).
+Proof. intros; split; reflexivity. Qed.
+Print Assumptions avl_invariant_meaning.
+
+(* put_assoc/4 always succeeds, inserts or overwrites in the sorted association list, and keeps the search-tree order
+   and the balance invariant *)
+Theorem avl_put_refines : forall (K V : Type) (cmp : K -> K -> comparison),
+  (forall x y, cmp x y = CompOpp (cmp y x)) ->
+  (forall x y z, cmp x y <> Gt -> cmp y z <> Gt -> cmp x z <> Gt) ->
+  forall (t : tree K V) k v, avl_inv cmp t ->
+  exists t', put cmp k v t = Some t' /\ to_list t' = map_put cmp k v (to_list t) /\ avl_inv cmp t'.
+Proof. exact (@put_refines). Qed.
+Print Assumptions avl_put_refines.
+
+(* get_assoc/3 is the lookup in the association list *)
+Theorem avl_get_refines : forall (K V : Type) (cmp : K -> K -> comparison),
+  (forall x y, cmp x y = CompOpp (cmp y x)) ->
+  (forall x y z, cmp x y <> Gt -> cmp y z <> Gt -> cmp x z <> Gt) ->
+  forall (t : tree K V) k, avl_inv cmp t -> get cmp k t = map_get cmp k (to_list t).
+Proof. exact (@get_refines). Qed.
+Print Assumptions avl_get_refines.
+
+(* del_assoc/4 fails exactly when the key is absent; otherwise it returns the value, removes the pair from the
+   association list and keeps the invariant (del_min/del_max, deladjust and the rotations included) *)
+Theorem avl_del_refines : forall (K V : Type) (cmp : K -> K -> comparison),
+  (forall x y, cmp x y = CompOpp (cmp y x)) ->
+  (forall x y z, cmp x y <> Gt -> cmp y z <> Gt -> cmp x z <> Gt) ->
+  forall (t : tree K V) k, avl_inv cmp t ->
+  match del cmp k t with
+  | None => map_get cmp k (to_list t) = None
+  | Some (v, t') => map_get cmp k (to_list t) = Some v /\ to_list t' = map_del cmp k (to_list t) /\ avl_inv cmp t'
+  end.
+Proof. exact (@del_refines). Qed.
+Print Assumptions avl_del_refines.
+
+(* list_to_assoc/2: with pairwise different keys the tree holds the key-sorted list, satisfies the invariant and has
+   the minimal height; with a duplicate key there is no result (domain_error) *)
+Theorem avl_list_to_assoc_refines : forall (K V : Type) (cmp : K -> K -> comparison),
+  (forall x y, cmp x y = CompOpp (cmp y x)) ->
+  (forall x y z, cmp x y <> Gt -> cmp y z <> Gt -> cmp x z <> Gt) ->
+  forall l : list (K * V),
+  match l with
+  | [] => list_to_assoc cmp l = Some E
+  | _ => if ord_pairs cmp (ssort (kcmp cmp) l)
+         then exists t, list_to_assoc cmp l = Some t /\ to_list t = ssort (kcmp cmp) l /\ avl_inv cmp t /\
+                        height t = S (Nat.log2 (length l))
+         else list_to_assoc cmp l = None
+  end.
+Proof. exact (@list_to_assoc_spec). Qed.
+Print Assumptions avl_list_to_assoc_refines.
+
+(* assoc_to_list/2, assoc_to_keys/2, assoc_to_values/2 (difference lists) are the in-order views *)
+Theorem avl_views : forall (K V : Type) (t : tree K V),
+  assoc_to_list t = to_list t /\ assoc_to_keys t = map fst (to_list t) /\ assoc_to_values t = map snd (to_list t).
+Proof. exact (@assoc_to_list_spec). Qed.
+Print Assumptions avl_views.
+
+(* the executable checker used by the correspondence decides the invariant *)
+Theorem avl_ok_spec : forall (K V : Type) (cmp : K -> K -> comparison),
+  (forall x y, cmp x y = CompOpp (cmp y x)) ->
+  (forall x y z, cmp x y <> Gt -> cmp y z <> Gt -> cmp x z <> Gt) ->
+  forall t : tree K V, avl_ok cmp t = true <-> avl_inv cmp t.
+Proof. exact (@avl_ok_iff). Qed.
+Print Assumptions avl_ok_spec.
+
+(* height bound in Fibonacci form: fib(height + 2) <= entries + 1 (hence height <= 1.4405 log2(entries + 2));
+   the conversion to the logarithm over the reals is not part of the statement *)
+Theorem avl_height_fib : forall (K V : Type) (t : tree K V),
+  balanced t -> fib (height t + 2) <= length (to_list t) + 1.
+Proof. exact (@height_fib). Qed.
+Print Assumptions avl_height_fib.
+
+(* over the standard order of terms: every history of put/del/get on the mirror succeeds, returns the results of the
+   finite-map model (run_ops), holds its content, and ends in a tree satisfying the invariant *)
+Theorem avl_history_refines : forall ops (t : tree term term), avl_inv tcompare t ->
+  exists o t', run_tree ops t = Some (o, t') /\ run_ops ops (to_list t) = (o, to_list t') /\ avl_inv tcompare t'.
+Proof. exact run_tree_refines. Qed.
+Print Assumptions avl_history_refines.
+
 (* non-vacuity / examples *)
 Example ex_keysort_stable :
   tkeysort [tpair (Int 1) (Atom [97%N]); tpair (Flt 4607182418800017408) (Atom [98%N]); tpair (Int 1) (Atom [99%N]);
@@ -166,10 +254,33 @@ Example ex_assoc :
   = ([Some (Int 2); Some (Int 1); None], [(Atom [97%N], Int 2)]).
 Proof. vm_compute. reflexivity. Qed.
 (* the tree checker is not vacuous: a correct tree passes, a wrong balance symbol or a misplaced key fails *)
+Definition term_avl_ok (t : term) : bool :=
+  match tree_of_term t with Some tr => avl_ok tcompare tr | None => false end.
 Example ex_avl :
-  map avl_ok
+  map term_avl_ok
     [Cmp t_name [Atom [98%N]; Int 1; Atom [60%N]; Cmp t_name [Atom [97%N]; Int 2; Atom [45%N]; Atom t_name; Atom t_name]; Atom t_name];
      Cmp t_name [Atom [98%N]; Int 1; Atom [45%N]; Cmp t_name [Atom [97%N]; Int 2; Atom [45%N]; Atom t_name; Atom t_name]; Atom t_name];
      Cmp t_name [Atom [97%N]; Int 1; Atom [60%N]; Cmp t_name [Atom [98%N]; Int 2; Atom [45%N]; Atom t_name; Atom t_name]; Atom t_name]]
   = [true; false; false].
 Proof. vm_compute. reflexivity. Qed.
+(* the hypotheses of the avl_* theorems are satisfiable: Z.compare is such an order, trees satisfying the invariant exist,
+   and the mirror computes (ascending insertion rotates; deleting the root of a full tree takes the left maximum) *)
+Example ex_avl_order_Z :
+  (forall x y, Z.compare x y = CompOpp (Z.compare y x)) /\
+  (forall x y z, Z.compare x y <> Gt -> Z.compare y z <> Gt -> Z.compare x z <> Gt).
+Proof.
+  split; [intros x y; apply Z.compare_antisym|].
+  intros x y z H1 H2. apply Z.compare_le_iff in H1. apply Z.compare_le_iff in H2. apply Z.compare_le_iff.
+  exact (Z.le_trans _ _ _ H1 H2).
+Qed.
+Example ex_avl_mirror :
+  let t3 := T 2%Z 20%Z BE (T 1%Z 10%Z BE E E) (T 3%Z 30%Z BE E E) in
+  put Z.compare 3%Z 30%Z (T 1%Z 10%Z BR E (T 2%Z 20%Z BE E E)) = Some t3 /\
+  del Z.compare 2%Z t3 = Some (20%Z, T 1%Z 10%Z BR E (T 3%Z 30%Z BE E E)) /\
+  list_to_assoc Z.compare [(3%Z, 30%Z); (1%Z, 10%Z); (2%Z, 20%Z)] = Some t3 /\
+  avl_inv Z.compare t3 /\ avl_ok Z.compare (T 1%Z 10%Z BE E (T 2%Z 20%Z BE E E)) = false.
+Proof.
+  cbv zeta. split; [vm_compute; reflexivity|]. split; [vm_compute; reflexivity|]. split; [vm_compute; reflexivity|].
+  split; [|vm_compute; reflexivity].
+  apply (avl_ok_iff Z.compare (proj1 ex_avl_order_Z) (proj2 ex_avl_order_Z)). vm_compute. reflexivity.
+Qed.
